@@ -429,6 +429,10 @@ func runC08(c *Ctx) {
 				"F(call:$clientT.Height.IsZero(?lh))",
 				"F(call:$chanT.Timeout.Elapsed(~and(~wf(Height, param#4), ~wf(Timestamp, param#5)), ?lh, _))",
 			)},
+			// ... against exactly the client's latest height and the consensus timestamp at that height
+			Req{Name: "timeout-compared-with-latest-consensus-state", Any: all(
+				"F(call:$chanT.Timeout.Elapsed(_, ~and(?lh, call:$clientK.GetClientLatestHeight(_, _, field:ClientId("+conn+"))), extract:0($LCM.TimestampAtHeight(_, _, field:ClientId("+conn+"), ?lh))))",
+			)},
 		)
 		c.CheckRets(which, "C08/send-v1/returns-allocated-sequence", rr, func(r *interp.Ret) bool {
 			return NilErr(e)(r)
